@@ -148,7 +148,12 @@ func anchorScenario(o anchorOpts) *Scenario {
 			purAct("bpur(W1,#1,1)", model.BcnPur, "W1", 1, 1, ""),
 		)
 	}
-	if o.purchases {
+	if o.heights {
+		// the maximum lowered by governance below a limit the chain already holds: records are kept up to the
+		// chain's own limit all the same
+		add(anchorGov("gov(wrk:default=1,max=2)", model.WrkParams, model.AnchorParams{FeeReg: 24, FeeRec: 2, FeePur: 3, Denom: mc.Nund, Default: 1, Max: 2}))
+	}
+	if o.purchases || o.heights {
 		// three records in one block (retention effects that need several records are one step away)
 		add(
 			Action{Name: "wrec(W1,#1,next)x3", Dt: time.Millisecond, Txs: func(m *model.State) []model.Tx {
@@ -174,6 +179,8 @@ func anchorScenario(o anchorOpts) *Scenario {
 				return txs
 			}},
 		)
+	}
+	if o.purchases {
 		add(
 			purAct("wpur(W1,#1,0)", model.WrkPur, "W1", 1, 0, ""),
 			purAct("wpur(W1,#1,1)", model.WrkPur, "W1", 1, 1, ""),
@@ -274,7 +281,7 @@ func init() {
 	Checks["C07"] = func() *Check {
 		return &Check{ID: "C07",
 			Runs: []Run{{S: anchorScenario(anchorOpts{name: "anchor-records", heights: true}), Opt: map[Tier]Options{
-				Quick:    {Depth: 5, Budget: 150 * time.Second, ReplayEvery: 16},
+				Quick:    {Depth: 4, Budget: 150 * time.Second, ReplayEvery: 16},
 				Thorough: {Depth: 8, Budget: 25 * time.Minute, ReplayEvery: 32, MaxStates: 500000},
 			}}},
 			Owns: ownsAny("anch.record", "anch.missing", "tx.accept_unexpected:wrk.rec:height_not_new", "tx.accept_unexpected:wrk.rec:not_owner", "tx.accept_unexpected:bcn.rec:not_owner", "tx.nonatomic"),
